@@ -82,6 +82,8 @@ def square_term(t):
     r = SQ_F(t)
     if CUR is not None:
         CUR.side_fact(r >= 0)
+        if CUR.pairwise:
+            CUR.register_uf('SQ', t)
     return r
 
 
@@ -97,6 +99,8 @@ def sqrt_term(t):
         CUR.side_fact(z3.Implies(t >= 0, r >= 0))
         CUR.side_fact(z3.Implies(t > 0, r > 0))
         CUR.side_fact(z3.Implies(t == 0, r == 0))
+        if CUR.pairwise:
+            CUR.register_uf('SQRT', t)
     return r
 
 
@@ -408,7 +412,8 @@ class Path:
 
 
 class Explorer:
-    def __init__(self, assumptions=(), max_paths=20000, stats=None, timeout_ms=None, deadline=None):
+    def __init__(self, assumptions=(), max_paths=20000, stats=None, timeout_ms=None, deadline=None, pairwise=False):
+        self.pairwise = pairwise      # instantiate pairwise UF lemmas while exploring (prunes spurious paths)
         self.assumptions = list(assumptions)
         self.max_paths = max_paths
         self.stats = stats or smt.Stats()
@@ -433,6 +438,7 @@ class Explorer:
         self.known = dict(self._known0)
         self.fresh_n = 0
         self.roundtrip_used = False
+        self._uf = {'SQ': {}, 'SQRT': {}}
 
     @staticmethod
     def _note(known, lit):
@@ -445,6 +451,16 @@ class Explorer:
             known[lit.arg(0).get_id()] = (False, lit.arg(0))
         else:
             known[lit.get_id()] = (True, lit)
+
+    def register_uf(self, kind, arg):
+        d = self._uf[kind]
+        i = arg.get_id()
+        if i in d:
+            return
+        d[i] = arg
+        terms = [SQ_F(a) for a in self._uf['SQ'].values()] + [SQRT_F(a) for a in self._uf['SQRT'].values()]
+        for f in smt.uf_lemmas(terms, pairwise=True):
+            self.side_fact(f)
 
     def side_fact(self, f):
         i = f.get_id()
